@@ -315,7 +315,8 @@ ns.evil.tld. 3600 IN A 198.51.100.66\n";
     let z1_text = "z1.ent.tld. 3600 IN SOA ns.z1.ent.tld. admin.z1.ent.tld. 1 7200 3600 86400 300\n\
 z1.ent.tld. 3600 IN NS ns.z1.ent.tld.\n\
 ns.z1.ent.tld. 3600 IN A 198.51.100.71\n\
-www.z1.ent.tld. 300 IN A 192.0.2.71\n";
+www.z1.ent.tld. 300 IN A 192.0.2.71\n\
+z1.ent.tld. 3600 IN DNSKEY 256 3 8 AgE=\n";
     let z2_text = "z2.ent.tld. 3600 IN SOA ns.z2.ent.tld. admin.z2.ent.tld. 1 7200 3600 86400 300\n\
 z2.ent.tld. 3600 IN NS ns.z2.ent.tld.\n\
 ns.z2.ent.tld. 3600 IN A 198.51.100.72\n\
@@ -1035,6 +1036,52 @@ impl World {
         } else {
             None
         }
+    }
+
+    /// z1.ent.tld.'s (properly signed) DNSKEY RRset holds, next to the real
+    /// key, a malformed RSA key (the exponent length field points beyond the
+    /// key material). Put an RRSIG that names that key - algorithm, key tag,
+    /// some octets for a signature - in front of the genuine one of the first
+    /// RRset z1.ent.tld. signed: the validator has to look at the malformed
+    /// key, cannot use it, and goes on to the genuine signature.
+    pub fn add_sig_naming_malformed_key(&self, r: &mut Resp) -> bool {
+        let z = match self.zones.iter().find(|z| z.apex == "z1.ent.tld.") {
+            Some(z) => z,
+            None => return false,
+        };
+        let tag = match z.rrsets.get(&("z1.ent.tld.".to_string(), Rtype::DNSKEY)).and_then(|ks| {
+            ks.iter().find_map(|k| match k.data() {
+                ZoneRecordData::Dnskey(d) if d.algorithm().to_int() == 8 => Some(d.key_tag()),
+                _ => None,
+            })
+        }) {
+            Some(t) => t,
+            None => return false,
+        };
+        for sec in [&mut r.answer, &mut r.authority] {
+            for i in 0..sec.len() {
+                if let ZoneRecordData::Rrsig(s) = sec[i].data() {
+                    if lname(s.signer_name()) == "z1.ent.tld." {
+                        let filler = domain::rdata::Rrsig::new(
+                            s.type_covered(),
+                            domain::base::iana::SecurityAlgorithm::RSASHA256,
+                            s.labels(),
+                            s.original_ttl(),
+                            s.expiration(),
+                            s.inception(),
+                            tag,
+                            s.signer_name().clone(),
+                            Bytes::from(vec![0x5a; 64]),
+                        )
+                        .expect("rrsig");
+                        let rec: SRec = Record::new(sec[i].owner().clone(), sec[i].class(), sec[i].ttl(), ZoneRecordData::Rrsig(filler));
+                        sec.insert(i, rec);
+                        return true;
+                    }
+                }
+            }
+        }
+        false
     }
 
     /// Insert the stale RRSIG of one RRset of the response before its valid
